@@ -34,42 +34,43 @@ class SgraphFromSelectorsTripleYielder(BaseTriplesYielder):
 
 
     def _yield_relevant_sgraph_triples(self, target_nodes, sgraph):
-        for a_triple in self._yield_relevant_direct_triples(target_nodes, sgraph):
+        # With inverse paths, a triple linking two explored nodes is reached twice: from its subject (direct loop)
+        # and from its object (inverse loop). It must be yielded once, as when the same graph is read from a file.
+        already_yielded = set() if self._inverse_paths else None
+        for a_triple in self._yield_relevant_direct_triples(target_nodes, sgraph, already_yielded):
             yield a_triple
         if self._inverse_paths:
-            for a_triple in self._yield_relevant_inverse_triples(target_nodes, sgraph):
+            for a_triple in self._yield_relevant_inverse_triples(target_nodes, sgraph, already_yielded):
                 yield a_triple
 
-    def _yield_relevant_direct_triples(self, target_nodes, sgraph):
+    def _yield_relevant_direct_triples(self, target_nodes, sgraph, already_yielded=None):
         for s, p, o in sgraph.yield_p_o_triples_of_target_nodes(target_nodes=target_nodes,
                                                                 depth=self._depth,
                                                                 classes_at_last_level=self._classes_at_last_level,
                                                                 instantiation_property=self._instantiation_property,
                                                                 already_visited=None,
                                                                 strict_syntax_with_uri_corners=self._strict_syntax_with_corners):
-            yield (tune_subj(a_token=add_corners_if_it_is_an_uri(s)),
-                   tune_prop(a_token=add_corners_if_needed(p)),
-                   tune_token(a_token=add_corners_if_it_is_an_uri(o),
+            str_triple = (add_corners_if_it_is_an_uri(s), add_corners_if_needed(p), add_corners_if_it_is_an_uri(o))
+            if already_yielded is not None:
+                already_yielded.add(str_triple)
+            yield (tune_subj(a_token=str_triple[0]),
+                   tune_prop(a_token=str_triple[1]),
+                   tune_token(a_token=str_triple[2],
                               allow_untyped_numbers=self._allow_untyped_numbers)
                    )
 
-    def _yield_relevant_inverse_triples(self, target_nodes, sgraph):
+    def _yield_relevant_inverse_triples(self, target_nodes, sgraph, already_yielded=None):
         for s, p, o in sgraph.yield_s_p_triples_of_target_nodes(target_nodes=target_nodes,
                                                                 depth=self._depth,
                                                                 classes_at_last_level=self._classes_at_last_level,
                                                                 instantiation_property=self._instantiation_property,
                                                                 already_visited=None,
                                                                 strict_syntax_with_uri_corners=self._strict_syntax_with_corners):
-            yield (tune_subj(a_token=add_corners_if_it_is_an_uri(s)),
-                   tune_prop(a_token=add_corners_if_needed(p)),
-                   tune_token(a_token=add_corners_if_it_is_an_uri(o),
+            str_triple = (add_corners_if_it_is_an_uri(s), add_corners_if_needed(p), add_corners_if_it_is_an_uri(o))
+            if already_yielded is not None and str_triple in already_yielded:
+                continue
+            yield (tune_subj(a_token=str_triple[0]),
+                   tune_prop(a_token=str_triple[1]),
+                   tune_token(a_token=str_triple[2],
                               allow_untyped_numbers=self._allow_untyped_numbers)
                    )
-
-
-
-
-
-
-
-
